@@ -1052,6 +1052,21 @@ pub fn run_illformed_params(out: &mut Out, rng: &mut Prng) {
     cases.push(("dict a{us} with a string key".into(), dict(signature::Base::Uint32, "s", vec![(Base::String("k".into()), s("v"))]), true));
     cases.push(("dict a{us} with a u32 value".into(), dict(signature::Base::Uint32, "s", vec![(Base::Uint32(1), u(2))]), true));
     cases.push(("nested: array of arrays, inner element type differs".into(), arr("au", vec![arr("u", vec![u(1)]), arr("s", vec![s("x")])]), true));
+    // 3b. every string-like in its borrowed and its owned Param form, bare / as a variant's value / behind a byte in a
+    //     struct: legal, and (with the offsets below) at every alignment phase
+    for (nm, b) in [
+        ("StringRef", Base::StringRef("str")),
+        ("String", Base::String("str".into())),
+        ("SignatureRef", Base::SignatureRef("a{sv}")),
+        ("Signature", Base::Signature("a{sv}".into())),
+        ("ObjectPathRef", Base::ObjectPathRef("/a/b")),
+        ("ObjectPath", Base::ObjectPath("/a/b".into())),
+    ] {
+        cases.push((format!("bare {}", nm), Param::Base(b.clone()), false));
+        cases.push((format!("variant holding {}", nm), good_var(Param::Base(b.clone())), false));
+        cases.push((format!("(y {})", nm), st(vec![Param::Base(Base::Byte(1)), Param::Base(b.clone())]), false));
+        cases.push((format!("(q {} y {})", nm, nm), st(vec![Param::Base(Base::Uint16(1)), Param::Base(b.clone()), Param::Base(Base::Byte(1)), Param::Base(b.clone())]), false));
+    }
     // 4. depth: towers of variants / variants around arrays, structs, dicts, from well inside to beyond the limit
     for n in [1usize, 2, 31, 32, 33, 62, 63, 64, 65, 66, 80, 128, 300] {
         let mut p = Param::Base(Base::Byte(9));
